@@ -1,9 +1,9 @@
 (* C20 -- a failing pipeline call leaves the process environment as it found it.
-   window_score_skel / template_input_skel are GENERATED from /repo on every run (Generated/EnvSkeletons.v):
-   the theorems below hold or fail with the source. *)
-From Coq Require Import List Bool.
+   window_score_skel / template_input_skel / window_read_skel / template_input_main_skel and the call-graph lists are
+   GENERATED from /repo on every run (Generated/EnvSkeletons.v): the theorems about them hold or fail with the source. *)
+From Coq Require Import List Bool String.
 Import ListNotations.
-From PV Require Import C20.Model C20.Proofs C20.Accepts Generated.EnvSkeletons.
+From PV Require Import C20.Model C20.Proofs C20.Accepts C20.Sound C20.Nested C20.Regress C20.Tie Generated.EnvSkeletons.
 
 (* soundness of the decision procedure, for every program, schedule (fault point, branch choices) and
    initial environment: if the check passes, EVERY environment variable is back to its entry value/absence *)
@@ -13,6 +13,20 @@ Theorem C20_environment_restored : forall vars p,
   forall v, fst st' v = env0 v.
 Proof. exact environment_restored. Qed.
 Print Assumptions C20_environment_restored.
+
+(* the two clauses of the statement separately: after a FAILING call, and "just as after a successful run"
+   (normal end or `return`) *)
+Theorem C20_restored_on_failure : forall vars p,
+  restores_check vars p = true -> writes_within vars p = true ->
+  forall env0 sc st' sc', exec p sc (env0, fun _ => None) = (st', E, sc') -> forall v, fst st' v = env0 v.
+Proof. exact (fun vars p Hc Hw env0 sc st' sc' H => environment_restored vars p Hc Hw env0 sc st' E sc' H). Qed.
+Print Assumptions C20_restored_on_failure.
+
+Theorem C20_restored_on_return : forall vars p,
+  restores_check vars p = true -> writes_within vars p = true ->
+  forall env0 sc st' o sc', o <> E -> exec p sc (env0, fun _ => None) = (st', o, sc') -> forall v, fst st' v = env0 v.
+Proof. exact (fun vars p Hc Hw env0 sc st' o sc' _ H => environment_restored vars p Hc Hw env0 sc st' o sc' H). Qed.
+Print Assumptions C20_restored_on_return.
 
 (* the two entry points, as extracted from the current source *)
 Theorem C20_window_score_restores :
@@ -36,6 +50,65 @@ Theorem C20_template_input_env : forall env0 sc st' o sc',
 Proof. exact (environment_restored _ _ (proj1 C20_template_input_restores) (proj2 C20_template_input_restores)). Qed.
 Print Assumptions C20_template_input_env.
 
+(* nested routes into the entry points: window_read calls window_score (inlined under Scope), the command-line
+   wrapper template_input_main calls template_input (which inlines _template_input, which inlines template_metadata) *)
+Theorem C20_window_read_env : forall env0 sc st' o sc',
+  exec window_read_skel sc (env0, fun _ => None) = (st', o, sc') -> forall v, fst st' v = env0 v.
+Proof. exact (environment_restored window_read_vars window_read_skel (eq_refl true) (eq_refl true)). Qed.
+Print Assumptions C20_window_read_env.
+
+Theorem C20_template_input_main_env : forall env0 sc st' o sc',
+  exec template_input_main_skel sc (env0, fun _ => None) = (st', o, sc') -> forall v, fst st' v = env0 v.
+Proof. exact (environment_restored template_input_main_vars template_input_main_skel (eq_refl true) (eq_refl true)). Qed.
+Print Assumptions C20_template_input_main_env.
+
+(* collaborators do not write the environment -- as a checked obligation.  The translator's call graph over the whole
+   package lists every function reachable from an entry point that contains an os.environ write (item assignment,
+   del, pop, setdefault, update, clear, putenv/unsetenv, or a use it cannot classify); each must be an entry point or
+   inlined in a skeleton, and no reference to such a function may be left that the skeleton could not place (inside a
+   loop, through an attribute, as a value ...) *)
+Theorem C20_collaborators_do_not_write :
+  uninlined_writers = [] /\
+  forallb (fun w => existsb (String.eqb w) covered_functions) reachable_env_writers = true.
+Proof. exact (conj (eq_refl (@nil string)) (eq_refl true)). Qed.
+Print Assumptions C20_collaborators_do_not_write.
+
+(* nested calls, semantically (no abstract interpreter involved): a caller that snapshots variables into locals of
+   its own, runs ANY callee under try/finally and puts the snapshots back restores them whatever the callee does *)
+Theorem C20_guard_restores_any_callee : forall gs body,
+  NoDup (map snd gs) -> (forall s, In s (map snd gs) -> ~ In s (prog_slots body)) ->
+  forall env0 sl sc st' o sc', exec (guard gs body) sc (env0, sl) = (st', o, sc') ->
+  (forall v, In v (map fst gs) -> fst st' v = env0 v) /\
+  (forall w, ~ In w (map fst gs) -> ~ In w (prog_writes body) -> fst st' w = env0 w).
+Proof. exact guard_restores. Qed.
+Print Assumptions C20_guard_restores_any_callee.
+
+(* ... and the generated template_input has exactly that shape around _template_input / template_metadata *)
+Theorem C20_template_input_is_guard :
+  exists body, template_input_skel = guard [(0, 0); (1, 1)] body
+               /\ nodupb (map snd [(0, 0); (1, 1)]) = true /\ slots_free [(0, 0); (1, 1)] body = true.
+Proof. exact template_input_is_guard. Qed.
+Print Assumptions C20_template_input_is_guard.
+
+Theorem C20_template_input_restores_by_guard :
+  forall env0 sl sc st' o sc', exec template_input_skel sc (env0, sl) = (st', o, sc') ->
+  forall v, In v [0; 1] -> fst st' v = env0 v.
+Proof. exact template_input_restores_by_guard. Qed.
+Print Assumptions C20_template_input_restores_by_guard.
+
+(* the `return` of an inlined callee ends the callee only *)
+Theorem C20_callee_return_stays_in_callee : forall p sc st, snd (fst (exec (Scope p) sc st)) <> R.
+Proof. exact scope_never_returns. Qed.
+Print Assumptions C20_callee_return_stays_in_callee.
+
+(* the return path and the failing-after-a-write path are reachable in the generated skeletons *)
+Theorem C20_paths_reachable :
+  returns_somehow window_score_skel (single_faults 64) = true /\ fails_after_write window_score_skel (single_faults 64) = true /\
+  returns_somehow template_input_skel (single_faults 400) = true /\ fails_after_write template_input_skel (single_faults 400) = true /\
+  returns_somehow window_read_skel (single_faults 64) = true /\ fails_after_write window_read_skel (all_scheds 10) = true.
+Proof. exact entry_points_paths_reachable. Qed.
+Print Assumptions C20_paths_reachable.
+
 (* the trace matcher used by the correspondence run is complete: the os.environ operations of ANY execution of a
    skeleton (any fault schedule, any initial state) are accepted with the outcome class of that execution; so an
    observed run that is rejected is certainly not a behaviour of the generated skeleton *)
@@ -44,6 +117,52 @@ Theorem C20_accepts_complete : forall p sc st st' o sc',
   accepts p (exec_ev p sc st) (match o with E => true | _ => false end) = true.
 Proof. exact accepts_complete. Qed.
 Print Assumptions C20_accepts_complete.
+
+(* ... and sound: it accepts exactly the control-flow language `runs` of the skeleton (every operation's success flag
+   left open), of which every execution is a member *)
+Theorem C20_accepts_iff_runs : forall p tr raised,
+  accepts p tr raised = true <-> exists o, runs p tr o /\ raised = raised_of o.
+Proof. exact accepts_iff_runs. Qed.
+Print Assumptions C20_accepts_iff_runs.
+
+Theorem C20_exec_runs : forall p sc st st' o sc', exec p sc st = (st', o, sc') -> runs p (exec_ev p sc st) o.
+Proof. exact exec_runs. Qed.
+Print Assumptions C20_exec_runs.
+
+(* what acceptance does NOT give: the data flow between operations; this accepted trace belongs to no execution *)
+Theorem C20_runs_not_exec_sound :
+  let p := Seq (I (ReadReq 0)) (I (ReadReq 0)) in
+  let tr := [EvGet 0 true; EvGet 0 false] in
+  accepts p tr true = true /\ forall sc st, exec_ev p sc st <> tr.
+Proof. exact runs_not_exec_sound. Qed.
+Print Assumptions C20_runs_not_exec_sound.
+
+(* the presence part of that data flow is checked on every observed trace by `consistent`; it holds of every execution *)
+Theorem C20_exec_trace_consistent : forall p sc env0 sl st' o sc',
+  exec p sc (env0, sl) = (st', o, sc') ->
+  consistent (fun v => is_some (env0 v)) (exec_ev p sc (env0, sl)) = true.
+Proof. exact exec_ev_consistent. Qed.
+Print Assumptions C20_exec_trace_consistent.
+
+(* regression obligations: the two historical defects (skeletons recorded from the source before cbb0f60 / 9322e2d)
+   are rejected by the checker, and really leak *)
+Theorem C20_window_score_cbb0f60_rejected : restores_check [0; 1] window_score_pre_cbb0f60 = false.
+Proof. exact window_score_cbb0f60_rejected. Qed.
+Print Assumptions C20_window_score_cbb0f60_rejected.
+
+Theorem C20_window_score_cbb0f60_leaks :
+  exists sc env0, fst (fst (fst (exec window_score_pre_cbb0f60 sc (env0, fun _ => None)))) 0 <> env0 0.
+Proof. exact window_score_cbb0f60_leaks. Qed.
+Print Assumptions C20_window_score_cbb0f60_leaks.
+
+Theorem C20_template_input_9322e2d_rejected : restores_check [0; 1] template_input_pre_9322e2d = false.
+Proof. exact template_input_9322e2d_rejected. Qed.
+Print Assumptions C20_template_input_9322e2d_rejected.
+
+Theorem C20_template_input_9322e2d_leaks :
+  exists sc env0, fst (fst (fst (exec template_input_pre_9322e2d sc (env0, fun _ => None)))) 0 <> env0 0.
+Proof. exact template_input_9322e2d_leaks. Qed.
+Print Assumptions C20_template_input_9322e2d_leaks.
 
 (* non-vacuity: the checker rejects a program that restores only on the straight-line path, and the
    semantics really leaves the variable deleted when the call in between fails *)
@@ -55,3 +174,18 @@ Proof. split; reflexivity. Qed.
 Example C20_checker_accepts_try_finally :
   restores_check [0] (Seq (I (SaveStrict 0 0)) (Seq (I (Del 0)) (TryFinally (I (Call 1)) (I (Restore 0 0))))) = true.
 Proof. reflexivity. Qed.
+(* a guard around a callee that overwrites and never restores (template_metadata in miniature) *)
+Example C20_guard_example :
+  let callee := Scope (Seq (I (SaveOpt 0 5)) (Seq (I (SetC 0 1)) (Seq (I (Call 1)) Ret))) in
+  restores_check [0] (guard [(0, 0)] callee) = true /\ restores_check [0] callee = false
+  /\ fst (fst (fst (exec (guard [(0, 0)] callee) [true] (fun _ => None, fun _ => None)))) 0 = None.
+Proof. repeat split; reflexivity. Qed.
+(* accepted and rejected traces of the generated window_score: the failing path with its restore; a write to a second
+   variable; a run without the `del` *)
+Example C20_matcher_on_window_score :
+  accepts window_score_skel [EvGet 0 true; EvDel 0 true; EvGet 1 false; EvSet 0] true = true /\
+  accepts window_score_skel [EvGet 0 true; EvDel 0 true; EvGet 1 false; EvSet 0; EvSet 1] true = false /\
+  accepts window_score_skel [EvGet 0 true; EvGet 1 false; EvSet 0] true = false /\
+  consistent (pres_of [true; false]) [EvGet 0 true; EvDel 0 true; EvGet 1 false; EvSet 0] = true /\
+  consistent (pres_of [true; true]) [EvGet 0 true; EvDel 0 true; EvGet 1 false; EvSet 0] = false.
+Proof. repeat split; reflexivity. Qed.
